@@ -39,6 +39,10 @@ def flag_bits(cls, e):
     t = {"s": cls.STRING, "b": cls.BOOLEAN, "i": cls.INTEGER, "f": cls.FLOAT}[e["type"]]
     if e.get("nullable"):
         t |= cls.NULLABLE
+    if e.get("prefer") == "long":
+        t |= cls.PREFER_LONG_NAME  # a display preference only: the short spelling stays valid
+    elif e.get("prefer") == "short":
+        t |= cls.PREFER_SHORT_NAME
     return t
 
 
@@ -114,8 +118,12 @@ def option_st(draw, long_name, short):
         default = DEFAULTS[typ]
     elif mode == "multi" and draw(st.booleans()):
         default = [DEFAULTS[typ]]
-    return {"k": "opt", "long": long_name, "short": short, "mode": mode, "type": typ, "nullable": nullable,
-            "default": default}
+    e = {"k": "opt", "long": long_name, "short": short, "mode": mode, "type": typ, "nullable": nullable,
+         "default": default}
+    prefer = draw(st.sampled_from([None, None, "long"] + (["short"] if short else [])))
+    if prefer:
+        e["prefer"] = prefer
+    return e
 
 
 @st.composite
